@@ -91,9 +91,9 @@ theorem IsChain.toIvChain {E : List Edge} {a b : Nat} {p : Path} (h : IsChain E 
 
 /-! ### the invariants -/
 
-/-- per-interval invariant, no assumption on the dictionary beyond `NoEmptyKey` -/
+/-- per-interval invariant, no assumption on the dictionary at all -/
 structure IvInv1 (d : Dict) (strat : Strategy) (c : Composition) (iv : Interval) : Prop where
-  prov : Prov d strat c iv
+  prov : ProvS d strat c iv
   le : iv.stop ≤ c.symbols.length
   noBreak : ∀ i, iv.start < i → i < iv.stop → gapAt c i ≠ some Gap.brk
   selCont : ∀ x ∈ c.selections, x.intersectRange iv.start iv.stop = true → iv.start ≤ x.start ∧ x.stop ≤ iv.stop
@@ -101,7 +101,7 @@ structure IvInv1 (d : Dict) (strat : Strategy) (c : Composition) (iv : Interval)
   nonPhrase : iv.isPhrase = false → ∃ i cp, c.symbols[i]? = some (Sym.chr cp) ∧
     iv = { start := i, stop := i + 1, isPhrase := false, text := [cp] }
 
-/-- per-interval invariant that needs `WellFormed d` and valid selections -/
+/-- per-interval invariant that needs `WellFormed d`, `HasWord d strat c` and valid selections -/
 structure IvInv2 (c : Composition) (iv : Interval) : Prop where
   len : iv.text.length = iv.stop - iv.start
   selAgree : ∀ x ∈ c.selections, iv.start ≤ x.start → x.stop ≤ iv.stop →
@@ -117,16 +117,8 @@ theorem allSyl_index {c : Composition} {s e : Nat} (h : ∀ sym ∈ slice c s e,
   | syl k => exact ⟨k, by rw [hsome, hx]⟩
   | chr cp => rw [hx] at this; simp [Sym.isSyl] at this
 
-theorem selConflict_false {c : Composition} {s e : Nat} (h : selConflict c s e = false) :
-    ∀ x ∈ c.selections, x.intersectRange s e = true → s ≤ x.start ∧ x.stop ≤ e := by
-  intro x hx hi
-  unfold selConflict at h
-  have := List.any_eq_false.mp h x hx
-  simp only [hi, Bool.true_and, Bool.not_eq_true', Bool.not_eq_false] at this
-  exact isContainedBy_eq_true.mp (by simpa using this)
-
 theorem edge_inv1 {d : Dict} {strat : Strategy} {c : Composition} {e : Edge} (h : EdgeOK d strat c e)
-    (hlt : e.start < e.stop) (hle : e.stop ≤ c.symbols.length) : IvInv1 d strat c (toInterval e) := by
+    (hlt : e.start < e.stop) (hle : e.stop ≤ c.symbols.length) (hc : CompValid c) : IvInv1 d strat c (toInterval e) := by
   obtain ⟨s, t, ph⟩ := e
   simp only at hlt hle
   have hnb := hasBreakInside_eq_false_iff.mp h.noBreak
@@ -137,17 +129,22 @@ theorem edge_inv1 {d : Dict} {strat : Strategy} {c : Composition} {e : Edge} (h 
     have ht := slice_singleton_stop hs hle
     subst ht
     refine ⟨?_, hle, hnb, hsc, ?_, ?_⟩
-    · exact Prov.chr (slice_singleton hs).2
+    · exact ProvS.base (Prov.chr (slice_singleton hs).2)
     · intro hp; simp [toInterval] at hp
     · intro _; exact ⟨s, cp, (slice_singleton hs).2, rfl⟩
   · simp only at hph hall hsrc
     subst hph
     refine ⟨?_, hle, hnb, hsc, fun _ => allSyl_index hall hle, fun hp => by simp [toInterval] at hp⟩
-    rcases hsrc with ⟨hl, _⟩ | ⟨x, hx, h1, h2, hp⟩
-    · exact Prov.dict hlt hle hall hl
+    rcases hsrc with ⟨hl, _⟩ | ⟨x, hx, h1, h2, hp⟩ | ⟨k, hs, hp, hpick, hforced⟩
+    · exact ProvS.base (Prov.dict hlt hle hall hl)
     · subst hp
       subst h1 h2
-      exact Prov.sel hx
+      exact ProvS.base (Prov.sel hx)
+    · subst hp
+      have ht := slice_singleton_stop hs hle
+      subst ht
+      obtain ⟨hl, hfree⟩ := fallback_facts hc h.noConflict hforced hpick
+      exact ProvS.spell ⟨s, k, (slice_singleton hs).2, hl, hfree, rfl⟩
 
 theorem inv1_merge {d : Dict} {strat : Strategy} {c : Composition} (a b : Interval)
     (ha : IvInv1 d strat c a) (hb : IvInv1 d strat c b) (pa : a.isPhrase = true) (pb : b.isPhrase = true)
@@ -157,7 +154,7 @@ theorem inv1_merge {d : Dict} {strat : Strategy} {c : Composition} (a b : Interv
   obtain ⟨bs, be, bp, bt⟩ := b
   simp only at pa pb hg hm la lb
   subst pa pb hm
-  refine ⟨Prov.glue ha.prov hb.prov hg, hb.le, ?_, ?_, ?_, fun hp => by simp at hp⟩
+  refine ⟨ProvS.glue ha.prov hb.prov hg, hb.le, ?_, ?_, ?_, fun hp => by simp at hp⟩
   · intro i h1 h2
     simp only at h1 h2
     rcases Nat.lt_trichotomy i ae with h | h | h
@@ -220,8 +217,8 @@ theorem pairwise_mem {α : Type} {R : α → α → Prop} {l : List α} (h : l.P
       · exact ih h.2 ha' hb'
 
 theorem edge_inv2 {d : Dict} {strat : Strategy} {c : Composition} {e : Edge} (h : EdgeOK d strat c e)
-    (hlt : e.start < e.stop) (hle : e.stop ≤ c.symbols.length) (hc : CompValid c) (hw : WellFormed d) :
-    IvInv2 c (toInterval e) := by
+    (hlt : e.start < e.stop) (hle : e.stop ≤ c.symbols.length) (hc : CompValid c) (hw : WellFormed d)
+    (hh : HasWord d strat c) : IvInv2 c (toInterval e) := by
   obtain ⟨s, t, ph⟩ := e
   simp only at hlt hle
   rcases h.kind with ⟨cp, hph, hs⟩ | ⟨p, hph, hall, hsrc⟩
@@ -240,7 +237,12 @@ theorem edge_inv2 {d : Dict} {strat : Strategy} {c : Composition} {e : Edge} (h 
     simp [Sym.isSyl] at this
   · simp only at hph hall hsrc
     subst hph
-    rcases hsrc with ⟨hl, hok⟩ | ⟨x0, hx0, h1, h2, hp⟩
+    rcases hsrc with ⟨hl, hok⟩ | ⟨x0, hx0, h1, h2, hp⟩ | ⟨k, hs, _, hpick, hforced⟩
+    rotate_right
+    · exfalso
+      have ht := slice_singleton_stop hs hle
+      subst ht
+      exact hh k (List.mem_of_getElem? (slice_singleton hs).2) (fallback_facts hc h.noConflict hforced hpick).1
     · refine ⟨?_, ?_⟩
       · simp only [toInterval, PPhrase.text]
         rw [hw _ _ _ hl, sylPrefix_length_of_all hall, slice_length hle]
@@ -263,6 +265,110 @@ theorem edge_inv2 {d : Dict} {strat : Strategy} {c : Composition} {e : Edge} (h 
           omega
       subst hxx
       rw [Nat.sub_self, List.drop_zero, ← hv0.textLen, List.take_length]
+
+/-! ### the exact text shape, without `HasWord` -/
+
+/-- per-interval invariant that needs `WellFormed d` and valid selections but no word per syllable -/
+structure IvInv3 (d : Dict) (strat : Strategy) (c : Composition) (iv : Interval) : Prop where
+  shape : SpelledText d strat c iv.start iv.stop iv.text
+  single : NoGlueInside c iv.start iv.stop → iv.text.length = iv.stop - iv.start ∨ Spelled d strat c iv
+
+theorem SpelledText.plain {d : Dict} {strat : Strategy} {c : Composition} {s e : Nat} {t : Text}
+    (hle : s ≤ e) (h : t.length = e - s) : SpelledText d strat c s e t := by
+  induction t generalizing s with
+  | nil =>
+    have : s = e := by simp at h; omega
+    subst this
+    exact .nil
+  | cons x r ih =>
+    simp only [List.length_cons] at h
+    exact .char (ih (by omega) (by omega))
+
+theorem SpelledText.append {d : Dict} {strat : Strategy} {c : Composition} {s m e : Nat} {t₁ t₂ : Text}
+    (h₁ : SpelledText d strat c s m t₁) (h₂ : SpelledText d strat c m e t₂) : SpelledText d strat c s e (t₁ ++ t₂) := by
+  induction h₁ with
+  | nil => exact h₂
+  | char _ ih => exact .char (ih h₂)
+  | spell a b f _ ih =>
+    rw [List.append_assoc]
+    exact .spell a b f (ih h₂)
+
+theorem SpelledText.le {d : Dict} {strat : Strategy} {c : Composition} {s e : Nat} {t : Text}
+    (h : SpelledText d strat c s e t) : s ≤ e := by
+  induction h with
+  | nil => exact Nat.le_refl _
+  | char _ ih => omega
+  | spell _ _ _ _ ih => omega
+
+/-- with a word for every syllable no piece is a spelling: one character per symbol -/
+theorem SpelledText.length_hasWord {d : Dict} {strat : Strategy} {c : Composition} {s e : Nat} {t : Text}
+    (h : SpelledText d strat c s e t) (hw : HasWord d strat c) : t.length = e - s := by
+  induction h with
+  | nil => simp
+  | char h ih => have := h.le; simp only [List.length_cons, ih]; omega
+  | spell a b _ _ _ => exact absurd b (hw _ (List.mem_of_getElem? a))
+
+/-- at least one character per symbol as soon as no buffered syllable has an empty spelling -/
+theorem SpelledText.length_ge {d : Dict} {strat : Strategy} {c : Composition} {s e : Nat} {t : Text}
+    (h : SpelledText d strat c s e t) (hn : SpellNonempty c) : e - s ≤ t.length := by
+  induction h with
+  | nil => simp
+  | char h ih => simp only [List.length_cons]; omega
+  | spell a _ _ h ih =>
+    have := List.length_pos_iff.mpr (hn _ (List.mem_of_getElem? a))
+    have := h.le
+    simp only [List.length_append]
+    omega
+
+theorem Spelled.shape {d : Dict} {strat : Strategy} {c : Composition} {iv : Interval} (h : Spelled d strat c iv) :
+    SpelledText d strat c iv.start iv.stop iv.text := by
+  obtain ⟨i, k, h1, h2, h3, rfl⟩ := h
+  have := SpelledText.spell (e := i + 1) h1 h2 h3 .nil
+  rwa [List.append_nil] at this
+
+/-- an edge of the graph carries one character per symbol, or it is the fallback edge -/
+theorem edge_len_or_spelled {d : Dict} {strat : Strategy} {c : Composition} {e : Edge} (h : EdgeOK d strat c e)
+    (hle : e.stop ≤ c.symbols.length) (hc : CompValid c) (hw : WellFormed d) :
+    (toInterval e).text.length = e.stop - e.start ∨ Spelled d strat c (toInterval e) := by
+  obtain ⟨s, t, ph⟩ := e
+  simp only at hle
+  rcases h.kind with ⟨cp, hph, hs⟩ | ⟨p, hph, hall, hsrc⟩
+  · simp only at hph hs
+    subst hph
+    have ht := slice_singleton_stop hs hle
+    subst ht
+    exact Or.inl (by simp [toInterval, PPhrase.text])
+  · simp only at hph hall hsrc
+    subst hph
+    rcases hsrc with ⟨hl, _⟩ | ⟨x0, hx0, h1, h2, hp⟩ | ⟨k, hs, hp, hpick, hforced⟩
+    · left
+      simp only [toInterval, PPhrase.text]
+      rw [hw _ _ _ hl, sylPrefix_length_of_all hall, slice_length hle]
+    · subst hp
+      subst h1 h2
+      exact Or.inl (hc.sels x0 hx0).textLen
+    · subst hp
+      have ht := slice_singleton_stop hs hle
+      subst ht
+      obtain ⟨hl, hfree⟩ := fallback_facts hc h.noConflict hforced hpick
+      exact Or.inr ⟨s, k, (slice_singleton hs).2, hl, hfree, rfl⟩
+
+theorem edge_inv3 {d : Dict} {strat : Strategy} {c : Composition} {e : Edge} (h : EdgeOK d strat c e)
+    (hlt : e.start < e.stop) (hle : e.stop ≤ c.symbols.length) (hc : CompValid c) (hw : WellFormed d) :
+    IvInv3 d strat c (toInterval e) := by
+  have key := edge_len_or_spelled h hle hc hw
+  refine ⟨?_, fun _ => key⟩
+  rcases key with hl | hs
+  · exact SpelledText.plain (Nat.le_of_lt hlt) hl
+  · exact hs.shape
+
+theorem inv3_merge {d : Dict} {strat : Strategy} {c : Composition} (a b : Interval)
+    (ha : IvInv3 d strat c a) (hb : IvInv3 d strat c b) (hg : gapAt c a.stop = some Gap.glue)
+    (hm : a.stop = b.start) (la : a.start < a.stop) (lb : b.start < b.stop) :
+    IvInv3 d strat c { start := a.start, stop := b.stop, isPhrase := true, text := a.text ++ b.text } := by
+  refine ⟨ha.shape.append (hm ▸ hb.shape), ?_⟩
+  intro hng
+  exact absurd hg (hng a.stop la (by simp only; omega))
 
 theorem inv2_merge {d : Dict} {strat : Strategy} {c : Composition} (hc : CompValid c) (a b : Interval)
     (ha : IvInv1 d strat c a ∧ IvInv2 c a) (hb : IvInv1 d strat c b ∧ IvInv2 c b)
